@@ -1,7 +1,9 @@
 (* C09 — line numbers reported with tokens match the source.  Statements only. *)
 From Coq Require Import List NArith Bool.
-From HV Require Import TokIR.IR TokIR.Interp TokIR.Checks Gen.GenHtmlTok Inst.InstHtmlTok.
+From HV Require Import TokIR.IR TokIR.Interp TokIR.Checks TokIR.LineInv Gen.GenHtmlTok Inst.InstHtmlTok Inst.InstLine.
+From HV Require Import CharRef.CRModel Gen.GenEntities.
 Import ListNotations.
+Local Open Scope N_scope.
 
 (* no peek-then-raw-discard path of the regenerated html table can drop a CR or LF uncounted *)
 Theorem C09_raw_discard_safe : raw_discard_safe html_table = [].
@@ -19,3 +21,91 @@ Theorem C09_simd_sets_consistent :
                   simd_first_guard simd_tail_stop simd_tail_newline simd_lane_stop simd_lane_newline = true.
 Proof. exact simd_sets_consistent. Qed.
 Print Assumptions C09_simd_sets_consistent.
+
+(* ------------------------------------------------------------------------------------------------------------
+   The law itself, for ALL inputs (TokIR/LineInv.v, instantiated on the regenerated html table in Inst/InstLine.v).
+   Reference semantics: html flavour, exact_errors = true, flat queue, the whole input fed at once and then end(),
+   any start state, any sink answers.  [mout] holds every token delivered, each with the line number passed to the
+   sink and the ghost position k (characters consumed so far); [breaks] counts LF, lone CR and CR LF (once).
+   A CR that is the last consumed character has been counted; the LF that may follow is not counted again. *)
+Theorem C09_line_numbers_match_source :
+  forall simd ent c1 sk,
+  (forall buf v, ent buf = Some v -> nobreaks buf = true) ->     (* entity-table keys contain no CR / LF *)
+  forall input fuel s0 last t ln k,
+  In (t, ln, k) (mout (fst (drive_flat html_flavour true html_table simd ent c1 sk fuel [] [input]
+                                       (mkmach (init_cfg s0 last false) [] [] 0) []))) ->
+  ln = 1 + breaks (firstn (N.to_nat k) input).
+Proof. exact html_drive_line_law. Qed.
+Print Assumptions C09_line_numbers_match_source.
+
+(* with the entity table of the pinned source (web_atoms::NAMED_ENTITIES as compiled, the table C14 proves equal to
+   the WHATWG list) the hypothesis is discharged *)
+Theorem C09_line_numbers_match_source_pinned_entities :
+  forall simd c1 sk input fuel s0 last t ln k,
+  In (t, ln, k) (mout (fst (drive_flat html_flavour true html_table simd (alookup entities) c1 sk fuel [] [input]
+                                       (mkmach (init_cfg s0 last false) [] [] 0) []))) ->
+  ln = 1 + breaks (firstn (N.to_nat k) input).
+Proof. exact html_drive_line_law_entities. Qed.
+Print Assumptions C09_line_numbers_match_source_pinned_entities.
+
+Theorem C09_entity_keys_have_no_line_break :
+  forall buf v, alookup entities buf = Some v -> nobreaks buf = true.
+Proof. exact real_entities_ok. Qed.
+Print Assumptions C09_entity_keys_have_no_line_break.
+
+(* the same law for the tokens delivered before end() is called (feed() of the whole input, with the sink's
+   script / encoding pauses) *)
+Theorem C09_line_numbers_match_source_before_end :
+  forall simd ent c1 sk,
+  (forall buf v, ent buf = Some v -> nobreaks buf = true) ->
+  forall input fuel s0 last t ln k,
+  In (t, ln, k)
+     (mout (fst (feed_loop [] fq_next fq_peek (@app N) (fun q => q) fq_run1 html_flavour true html_table
+                           simd ent c1 sk 50 fuel [] (mkmach (init_cfg s0 last false) input [] 0) []))) ->
+  ln = 1 + breaks (firstn (N.to_nat k) input).
+Proof. exact html_feed_line_law. Qed.
+Print Assumptions C09_line_numbers_match_source_before_end.
+
+(* every machine reached: the invariant holds initially, is kept by every step (table arm or character-reference
+   step, before or after end()), and gives the law for all tokens delivered so far *)
+Theorem C09_line_invariant_initially :
+  forall (simd : list N * list N * list N) (ent : list N -> option (N * N)) input s0 last,
+  HtmlLineInv input false (mkmach (init_cfg s0 last false) input [] 0).
+Proof. exact html_line_inv_init. Qed.
+Print Assumptions C09_line_invariant_initially.
+
+Theorem C09_line_invariant_kept_by_every_step :
+  forall simd ent c1 sk,
+  (forall buf v, ent buf = Some v -> nobreaks buf = true) ->
+  forall input at_eof m,
+  HtmlLineInv input false m ->
+  HtmlLineInv input at_eof
+    (fst (step [] fq_next fq_peek (@app N) (fun q => q) fq_run1 html_flavour true html_table simd ent c1 sk at_eof m)).
+Proof. exact html_line_inv_step. Qed.
+Print Assumptions C09_line_invariant_kept_by_every_step.
+
+Theorem C09_line_invariant_gives_the_law :
+  forall input at_eof m, HtmlLineInv input at_eof m ->
+  forall t ln k, In (t, ln, k) (mout m) -> ln = 1 + breaks (firstn (N.to_nat k) input).
+Proof. exact html_line_inv_law. Qed.
+Print Assumptions C09_line_invariant_gives_the_law.
+
+(* the decidable conditions under which the generic theorem holds, on the regenerated table *)
+Theorem C09_step_arms_count_every_line_break : forall s, start_ok html_table html_clean s = true.
+Proof. exact html_start_ok_all. Qed.
+Print Assumptions C09_step_arms_count_every_line_break.
+
+Theorem C09_eof_arms_do_not_read : forall s, eof_ok (t_eof html_table s) = true.
+Proof. exact html_eof_ok_all. Qed.
+Print Assumptions C09_eof_arms_do_not_read.
+
+(* non-vacuity (a test, by computation): a document with a tag spanning four lines, CR LF, lone CR, LF, named /
+   numeric / unfinished character references, comment, doctype, a reported bad character: 16 tokens, the EOF token
+   at line 10 = 1 + 9 line breaks with all 60 characters consumed *)
+Example C09_line_law_example :
+  line_law_b ex_input (mout (fst ex_run)) = true /\
+  ex_positions = [(4, 14); (4, 19); (5, 20); (5, 25); (5, 26); (5, 27); (5, 28); (6, 29); (7, 41); (8, 42);
+                  (9, 57); (10, 58); (10, 59); (10, 59); (10, 60); (10, 60)] /\
+  lenN ex_input = 60 /\ breaks ex_input = 9.
+Proof. exact ex_run_obeys_law. Qed.
+Print Assumptions C09_line_law_example.
